@@ -49,7 +49,11 @@ func printStmt(b *strings.Builder, n *N, d int) {
 		if n.T == TFn0 || n.T == TFn1 {
 			rt = "(" + n.T.Elk() + ")"
 		}
-		fmt.Fprintf(b, "def %s(%s): %s\n", n.S, strings.Join(ps, ", "), rt)
+		star := ""
+		if n.I == 1 {
+			star = "*" // generator method
+		}
+		fmt.Fprintf(b, "def %s%s(%s): %s\n", star, n.S, strings.Join(ps, ", "), rt)
 		printBlock(b, n.B[0], d+1)
 		ind(b, d)
 		b.WriteString("end\n")
@@ -61,6 +65,8 @@ func printStmt(b *strings.Builder, n *N, d int) {
 			e = "(" + e + " ?? (-99))" // Nil declares no inspect/to_string in the headers
 		}
 		fmt.Fprintf(b, "println(%s)\n", e)
+	case "yield":
+		fmt.Fprintf(b, "yield %s\n", Expr(n.C[0]))
 	case "trace":
 		fmt.Fprintf(b, "println(\"t%d\")\n", n.I)
 	case "decl":
